@@ -357,14 +357,50 @@ const SPINS: u32 = 300;
 
 struct Flag {
     woken: AtomicBool,
+    /// generation of the driver poll in progress: every driver poll uses a NEW waker (the driver
+    /// may be polled from a different task each time); only a wake through the waker of the
+    /// latest poll reaches the task that is parked now
+    gen: std::sync::atomic::AtomicU64,
 }
-impl Wake for Flag {
+static MOVING: AtomicBool = AtomicBool::new(false);
+
+/// `woken`/`parked`/`quiet` and the per-step trace depend on which task a wake reaches; engine
+/// `cellmv` compares only what the property speaks about
+fn reduce_mv(out: &str) -> String {
+    let head = out.split(" | ").next().unwrap_or("");
+    let t: Vec<&str> = head.split(' ').collect();
+    let mut r = Vec::new();
+    let mut i = 0;
+    while i < t.len() {
+        if matches!(t[i], "woken" | "parked" | "quiet") {
+            i += 2;
+        } else {
+            r.push(t[i]);
+            i += 1;
+        }
+    }
+    r.join(" ")
+}
+
+struct GenWaker {
+    flag: Arc<Flag>,
+    gen: u64,
+}
+impl Wake for GenWaker {
     fn wake(self: Arc<Self>) {
-        self.woken.store(true, Ordering::SeqCst);
+        self.wake_by_ref()
     }
     fn wake_by_ref(self: &Arc<Self>) {
-        self.woken.store(true, Ordering::SeqCst);
+        // engine `cellmv`: the driver is polled from a different task each time, so a wake through
+        // the waker of an earlier poll does not reach the task parked now; engine `cell`: one task
+        if !MOVING.load(Ordering::SeqCst) || self.flag.gen.load(Ordering::SeqCst) == self.gen {
+            self.flag.woken.store(true, Ordering::SeqCst);
+        }
     }
+}
+fn next_waker(flag: &Arc<Flag>) -> Waker {
+    let gen = flag.gen.fetch_add(1, Ordering::SeqCst) + 1;
+    Waker::from(Arc::new(GenWaker { flag: flag.clone(), gen }))
 }
 
 struct Handle {
@@ -413,14 +449,16 @@ fn driver_thread_pce(ctl: Arc<Ctl>, flag: Arc<Flag>, tx: mpsc::Sender<Arc<Shared
     let mut conn = build_server(&net);
     let _ = tx.send(conn.inner.shared.clone());
     ME.with(|m| *m.borrow_mut() = Some(Me { ctl: ctl.clone(), id: 0, acc: false, rounds: 0, net: Some(net.clone()) }));
-    let waker = Waker::from(flag.clone());
+    let mut waker = next_waker(&flag);
     loop {
         let cmd = ctl.wait_grant(0);
         let out = match cmd {
             Cmd::Drain | Cmd::Str => break,
             Cmd::Drv(DOp::Poll) => {
-                // the executor consumes the notification when it polls the task
+                // the executor consumes the notification when it polls the task; this poll
+                // comes with its own waker
                 flag.woken.store(false, Ordering::SeqCst);
+                waker = next_waker(&flag);
                 "poll".to_string()
             }
             Cmd::Drv(DOp::Park) => "park".to_string(),
@@ -455,7 +493,6 @@ fn driver_thread_acc(ctl: Arc<Ctl>, flag: Arc<Flag>, tx: mpsc::Sender<Arc<Shared
     let mut conn = build_server(&net);
     let _ = tx.send(conn.inner.shared.clone());
     ME.with(|m| *m.borrow_mut() = Some(Me { ctl: ctl.clone(), id: 0, acc: true, rounds: 0, net: Some(net.clone()) }));
-    let waker = Waker::from(flag.clone());
     // the transport stops the driver thread inside `poll_accept_bidi`
     let ctl2 = ctl.clone();
     let net2 = net.clone();
@@ -473,6 +510,7 @@ fn driver_thread_acc(ctl: Arc<Ctl>, flag: Arc<Flag>, tx: mpsc::Sender<Arc<Shared
             _ => break 'outer,
         }
         flag.woken.store(false, Ordering::SeqCst);
+        let waker = next_waker(&flag);
         ME.with(|m| m.borrow_mut().as_mut().unwrap().rounds = 0);
         let out = {
             let mut fut = Box::pin(conn.accept());
@@ -522,7 +560,7 @@ fn run_case(acc: bool, specs: Vec<Vec<Err>>, labels: Vec<Label>) -> String {
     INSTALL.call_once(|| h3::verif_hooks::install(hook));
     let n = specs.len();
     let ctl = Arc::new(Ctl { m: Mutex::new(CtlState::default()), controller: std::thread::current(), tasks: Mutex::new(Vec::new()) });
-    let flag = Arc::new(Flag { woken: AtomicBool::new(false) });
+    let flag = Arc::new(Flag { woken: AtomicBool::new(false), gen: std::sync::atomic::AtomicU64::new(0) });
     let (tx, rx) = mpsc::channel();
     if n > MAX_HANDLES {
         return "bad-op".into();
@@ -697,9 +735,10 @@ fn run_case(acc: bool, specs: Vec<Vec<Err>>, labels: Vec<Label>) -> String {
 }
 
 pub fn handle(w: &[&str]) -> String {
-    if w.len() < 3 || w[0] != "cell" {
+    if w.len() < 3 || (w[0] != "cell" && w[0] != "cellmv") {
         return "bad-op".into();
     }
+    let moving = w[0] == "cellmv";
     let acc = match w[1] {
         "pce" => false,
         "acc" => true,
@@ -715,5 +754,13 @@ pub fn handle(w: &[&str]) -> String {
     }
     let labels: Option<Vec<Label>> = w[colon + 1..].iter().map(|s| parse_label(s)).collect();
     let Some(labels) = labels else { return "bad-op".into() };
-    guarded(move || run_case(acc, specs, labels))
+    guarded(move || {
+        MOVING.store(moving, Ordering::SeqCst);
+        let out = run_case(acc, specs, labels);
+        if moving {
+            reduce_mv(&out)
+        } else {
+            out
+        }
+    })
 }
